@@ -154,6 +154,23 @@ also8 = {
 }
 for k, v in also8.items():
     claimed[k]["technique"] += "; round 8: " + v
+# round 9 (DESIGN.md §8, Round 9)
+also9 = {
+ "C02": "string literals with invalid UTF-8 and with letters whose lower-case form is shorter (U+212A, U+2126) against an enum whose values begin like them",
+ "C07": "caller-slices also with the first / last source flagged built-in (loads ⇒ still loads, with the library's built-ins)",
+ "C08": "leaf fields of type [[Int]] / [[String]] / [Int] under one response name on exclusive parents",
+ "C09": "variables of nested list type with input-object and Int defaults",
+ "C10": "an implementer omitting several ancestors at once (chosen item combinations); near misses of meta fields",
+ "C11": "operations coerce-oneof-first-member / -second-member (23 operations); registry-read-only (a caller's rule registered under a name sorting before / between / after the standard ones, then every validating operation: no package-level variable changes)",
+ "C12": "tree-edits also rename every name site to names using every digit and underscores",
+ "C14": "26 input-object variants (undeclared or wrongly cased keys holding null / a nil pointer)",
+ "C16": "sentences and profile documents also with commas / a BOM / blanks behind the last and before the first token",
+ "C18": "one field name with other argument sets on two types (S3 items)",
+ "C19": "repeated-decodes (a fragments-only document, a document with one operation and many fragments and a bare selection set decoded 1000 times in one process)",
+ "C20": "10 kinds of lexical error × 12 value contexts (argument, list item, object field, variable default, directive argument, type-system defaults) through every entry point from named sources",
+}
+for k, v in also9.items():
+    claimed[k]["technique"] += "; round 9: " + v
 checks = []
 for i in ids:
     if i in claimed:
